@@ -367,7 +367,27 @@ static void scenario(const std::string &scen, int run, Circuit base, const Coloq
     }
   } else if (scen == "glob") {
     Circuit a = base;
-    call(cx, a, "A", "global", p);
+    bool ok = call(cx, a, "A", "global", p);
+    if (ok && run % 2 == 0) {
+      // a second global placement of the same object after the caller changed which cells are fixed: nothing remembered from the
+      // first call may be used (the circuit as it is now is the new reference)
+      std::vector<bool> fixed = a.cellIsFixed();
+      std::vector<int> movable;
+      for (int i = 0; i < a.nbCells(); ++i)
+        if (!fixed[i] && a.area(i) > 0) movable.push_back(i);
+      if (movable.size() >= 2) {
+        fixed[movable[run / 2 % movable.size()]] = true;
+        for (int i = 0; i < a.nbCells(); ++i)
+          if (a.cellIsFixed()[i] && (i + run) % 3 == 0 && a.area(i) > 0 && a.area(i) < (1LL << 26)) fixed[i] = false;   // and some (small) fixed cells are released
+        a.setCellIsFixed(fixed);
+        // the changed circuit must still be in the domain of global placement (a newly fixed cell cuts the rows it sits on)
+        if (!vg::inGlobalDomain(a, p.global.roughLegalization.sideMargin)) return;
+        Value rb = vt::ev("Rebase");
+        rb.set("run", run).set("circ", vp::circuitToJson(a)).set("wl", a.hpwl());
+        vt::emit(rb);
+        call(cx, a, "A", "global", p);
+      }
+    }
   } else if (scen == "full") {
     Circuit a = base;
     if (call(cx, a, "A", "global", p))
